@@ -807,6 +807,40 @@ def run_common(r, obs):
     if len(branches) >= 2 and (flow_r or typ == "source"):
         obs.nontrivial = True
     if typ == "source":
+        # "After its flow is empty, next sequence is called": a later Source whose first element
+        # does its work when it is called sees what consuming the earlier ones left behind
+        log = []
+
+        class Recording(object):
+            def __init__(self, vals):
+                self.vals = vals
+
+            def __call__(self):
+                for v in self.vals:
+                    log.append(v)
+                    yield v
+
+        class SnapshotAtCall(object):
+            """An ordinary callable (not a generator function): reads the log when called."""
+            def __call__(self):
+                return iter([("seen-at-call", tuple(log))])
+        for how in ("call", "source-of-split", "run"):
+            del log[:]
+            sp3 = lena.core.Split([lena.core.Source(Recording([1, 2, 3])),
+                                   lena.core.Source(SnapshotAtCall()),
+                                   lena.core.Source(Recording([4])),
+                                   lena.core.Source(SnapshotAtCall())])
+            if how == "call":
+                got3 = list(sp3())
+            elif how == "source-of-split":
+                got3 = list(lena.core.Source(sp3, gen.func("id"))())
+            else:
+                got3 = list(sp3.run(iter([])))
+            exp3 = [1, 2, 3, ("seen-at-call", (1, 2, 3)), 4, ("seen-at-call", (1, 2, 3, 4))]
+            obs.count("common_type_runs")
+            verdict(obs, got3 == exp3, "common-type-call-differs:later-source-called-early",
+                    "a Split of Sources used through %s yields %r; calling each Source when the "
+                    "previous one is exhausted gives %r" % (how, got3, exp3))
         verdict(obs, callable(sp), "common-type-method-missing:source:__call__", "not callable")
         real = frozen(sp())
         model = frozen(itertools.chain(*[t() for t in twins]))
